@@ -8,6 +8,12 @@ NOT_APPLICABLE = {f"C{i:02d}": _PENDING for i in range(1, 21)}
 TRUST = "Trusted: rustc/std float semantics, the harness' own oracle code, the python driver. Held = held on the executions observed (exhaustive only for the sub-domains named in evidence)."
 
 CLAIMS = {
+    "C13": {
+        "text": "Shadow-buffer monitor + sanitizers: typed programs over layout-compatible colour types (all 266 ordered pairs of 17 three-float types that convert into each other, plus 16 chains with two or three further steps) run from_color_mut / from_color_unclamped_mut on slices of every length 0..=9 with writes through the guard, guard-kind switches, then_into_color(_unclamped)_mut steps and an end by drop, restore() or mem::forget; single values, Vec (with spare capacity, chained back) and Box<[T]> forms are run as well. After every step the real buffer is compared bit for bit with a shadow converted out of place, and address, length and capacity are compared before/after. cast::map_vec_in_place and map_slice_box_in_place are driven with a heap-owning, drop-counting component type and a closure that panics at every element k. The same driver runs under Miri (stacked borrows; thorough also tree borrows) and ASan; the native run has std ub_checks on.",
+        "design_ref": "DESIGN.md section 3, C13",
+        "note": TRUST + " Programs are sampled (seeded), lengths <= 9, chain depth <= 4.",
+        "technique": "runtime monitoring: online comparison of in-place programs with an out-of-place shadow model, drop-count monitor with injected panics, Miri + AddressSanitizer",
+    },
     "C18": {
         "text": "History monitor against a sequential executable model: seeded short histories (<= 24 ops; 3000 per type quick, 400000 thorough; 20 Vec-backed struct-of-arrays types covering plain, hue-first, hue-last, single-component and Alpha-wrapped macro arms) of push, pop, extend, collect, clear, drain over every range form (inverted and out-of-range included; fully, partially front/back, or not consumed), indexed and ranged get, get_mut+set, iter_mut+set, forward/backward/interleaved iteration with ExactSizeIterator lengths, owned into_iter, boxed-slice, slice-view and array containers are applied to the real collection and to Vec<Color>; every returned value and, after every operation, all component lengths and contents are compared; panics of drain must coincide. Colours carry unique ids so histories are unambiguous. Subsets run under Miri and ASan (drain and partially consumed iterators), and palette's own debug assertions on component iterator lengths are live.",
         "design_ref": "DESIGN.md section 3, C18",
